@@ -252,6 +252,10 @@ func init() {
 			Assumptions: []string{"the Dial seam repeats the three lines that follow ssh.Dial in openSession (see DESIGN.md section 8)"},
 			QuickRuns:   400,
 			ThoroughS:   240,
+			Legs: []Leg{
+				{Name: "D", QuickRuns: 400, Share: 0.7},
+				{Name: "OS", Prop: "C14S", QuickRuns: 32, Share: 0.3, Workers: 4},
+			},
 		},
 		Gen: genC14,
 		New: func() Scenario { return &C14{} },
